@@ -141,7 +141,7 @@ Proof.
   unfold write_data_to_cluster in Hw. destruct (s_ro s) eqn:Ero; [discriminate|]. rewrite Hch in Hw. cbv zeta in Hw.
   pose proof (ceil_div_covers (lenZ data) (bpc s) HB) as Hcov.
   assert (Hch1' : 1 <= lenZ ch).
-  { pose proof (chain_go_nonempty _ _ _ _ _ Hch). destruct ch; [congruence|unfold lenZ; cbn [length]; lia]. }
+  { pose proof (chain_go_nonempty _ _ _ _ _ _ Hch). destruct ch; [congruence|unfold lenZ; cbn [length]; lia]. }
   destruct (Z.max 1 (ceil_div (lenZ data) (bpc s)) <=? lenZ ch) eqn:En.
   - cbn [bind] in Hw. rewrite Hch in Hw.
     assert (Hnd : NoDup ch) by (eapply chain_go_nodup; exact Hch).
@@ -163,7 +163,8 @@ Proof.
     assert (Hne : new <> []) by (intro; subst new; unfold lenZ in Hnn; cbn in Hnn; lia).
     assert (Hch1 : chain s1 c = (ch ++ new, true)).
     { unfold chain, s1. cbn [s_fat upd_fat]. replace (ft (upd_fat s2 _ _)) with (ft s) by (rewrite <- Et2; reflexivity).
-      rewrite Hfat. apply extend_chain; try assumption.
+      replace (dmax (upd_fat s2 _ _)) with (dmax s) by (symmetry; apply dmax_geo; [apply Hg2|apply Hg2]).
+      rewrite Hfat. apply extend_chain; try assumption; [apply dmax_dok; exact Hv|].
       eapply Forall_impl; [|exact Hf]. cbv beta. intros a Ha. rewrite Hfree in Ha. lia. }
     rewrite Hch1 in Hw.
     assert (Hall : Forall (inside s) (ch ++ new)).
@@ -171,7 +172,7 @@ Proof.
     assert (Hg1 : same_geo s s1) by (destruct Hg2 as (A & B & C & D); repeat split; assumption).
     destruct (same_geo_facts _ _ Hg1) as (Ea1 & Eb1 & Et1 & Gg1 & Ins1).
     assert (Hnd : NoDup (ch ++ new)).
-    { pose proof (chain_go_nodup _ _ _ _ _ Hch1) as H. exact H. }
+    { pose proof (chain_go_nodup _ _ _ _ _ _ Hch1) as H. exact H. }
     assert (Hroom : (length data <= length (ch ++ new) * Z.to_nat (bpc s1))%nat).
     { rewrite Eb1, app_length. pose proof (ceil_div_covers (lenZ data - lenZ ch * bpc s) (bpc s) HB).
       unfold Gen.calc_num_clusters in Hn. cbv zeta in Hn. fold (bpc s) in Hn. unfold lenZ in *. nia. }
@@ -192,11 +193,11 @@ Proof.
 Qed.
 
 (** * writing at a cursor inside a file: Python's [data[pos:pos+len(b)] = b] on the bytes of the chain *)
-Lemma links_suffix t fat pre : forall suf, suf <> [] -> links t fat (pre ++ suf) -> links t fat suf.
+Lemma links_suffix t dm fat pre : forall suf, suf <> [] -> links t dm fat (pre ++ suf) -> links t dm fat suf.
 Proof.
   induction pre as [|c r IH]; intros suf Hne H; [exact H|]. apply IH; [exact Hne|].
   destruct (r ++ suf) as [|d q] eqn:E; [destruct r; [cbn in E; congruence|discriminate]|].
-  change ((c :: r) ++ suf) with (c :: (r ++ suf)) in H. rewrite E in H. destruct (proj1 (links_cons2 _ _ _ _ _) H) as (_ & _ & _ & H4). exact H4.
+  change ((c :: r) ++ suf) with (c :: (r ++ suf)) in H. rewrite E in H. destruct (proj1 (links_cons2 _ _ _ _ _ _) H) as (_ & _ & _ & H4). exact H4.
 Qed.
 Lemma read_chain_app s a b : read_chain s (a ++ b) = read_chain s a ++ read_chain s b.
 Proof. unfold read_chain. apply flat_map_app. Qed.
@@ -229,12 +230,12 @@ Proof.
   assert (Hhd : hd 0 suf = cpos).
   { unfold suf, cpos. clear - Hk. revert ch Hk. induction k as [|j IH]; intros ch Hk; destruct ch as [|x r]; try (cbn in Hk; lia); [reflexivity|].
     cbn [skipn nth]. apply IH. cbn in Hk. lia. }
-  destruct (chain_go_links _ _ _ _ _ Hch) as [Hl Hh0].
-  pose proof (chain_go_nodup _ _ _ _ _ Hch) as Hnd.
-  assert (Hlsuf : links (ft s) (s_fat s) suf) by (apply (links_suffix _ _ pre); [exact Hsufne|rewrite <- Hsplit; exact Hl]).
+  destruct (chain_go_links _ _ _ _ _ _ Hch) as [Hl Hh0].
+  pose proof (chain_go_nodup _ _ _ _ _ _ Hch) as Hnd.
+  assert (Hlsuf : links (ft s) (dmax s) (s_fat s) suf) by (apply (links_suffix _ _ _ pre); [exact Hsufne|rewrite <- Hsplit; exact Hl]).
   assert (Hchs : chain s cpos = (suf, true)).
-  { unfold chain. rewrite <- Hhd. apply links_chain_go; [exact Hv|exact Hlsuf|].
-    pose proof (chain_go_length (length (s_fat s)) (ft s) (s_fat s) c0) as Hlen. unfold chain in Hch. rewrite Hch in Hlen. cbn [fst] in Hlen.
+  { unfold chain. rewrite <- Hhd. apply links_chain_go; [exact Hlsuf|].
+    pose proof (chain_go_length (length (s_fat s)) (ft s) (dmax s) (s_fat s) c0) as Hlen. unfold chain in Hch. rewrite Hch in Hlen. cbn [fst] in Hlen.
     unfold suf. rewrite skipn_length. lia. }
   assert (Hinsuf : Forall (inside s) suf).
   { apply Forall_forall. intros x Hx. rewrite Forall_forall in Hin. apply Hin. rewrite Hsplit. apply in_or_app. right. exact Hx. }
@@ -242,12 +243,12 @@ Proof.
   destruct (same_geo_facts _ _ Hgeo) as (Hga & Hgb & Hft & _ & _).
   exists new.
   assert (Hdis : forall x, In x new -> ~ In x ch).
-  { intros x Hn Ho. pose proof (links_nonfree _ _ _ Hv Hl) as Hnf. rewrite Forall_forall in Hnf, Hnew. specialize (Hnf x Ho). specialize (Hnew x Hn). lia. }
+  { intros x Hn Ho. pose proof (links_nonfree _ _ _ _ Hv Hl) as Hnf. rewrite Forall_forall in Hnf, Hnew. specialize (Hnf x Ho). specialize (Hnew x Hn). lia. }
   assert (Hlast : last suf 0 = last ch 0) by (apply last_skipn; exact Hk).
   split.
-  { unfold chain. rewrite Hfat, Hft. destruct new as [|n0 nr].
+  { unfold chain. rewrite Hfat, Hft, (dmax_geo s s' (proj1 Hgeo) (proj1 (proj2 Hgeo))). destruct new as [|n0 nr].
     - cbn [length Nat.eqb]. rewrite app_nil_r. exact Hch.
-    - cbn [length Nat.eqb]. rewrite Hlast. apply extend_chain; try assumption. discriminate. }
+    - cbn [length Nat.eqb]. rewrite Hlast. apply extend_chain; try assumption; [apply dmax_dok; exact Hv|discriminate]. }
   split.
   { rewrite Hsplit, <- app_assoc. apply Forall_app. split; [|exact Hall].
     apply Forall_forall. intros x Hx. rewrite Forall_forall in Hin. apply Hin. rewrite Hsplit. apply in_or_app. left. exact Hx. }
@@ -426,7 +427,7 @@ Proof.
       - inversion Ea; subst. exists []. split; [reflexivity|constructor]. }
     destruct Hlog2 as (l2 & Hl2 & Hf2).
     set (s1 := upd_fat s2 (updZ (s_fat s2) (last ch 0) (hd 0 new)) (s_hint s2)) in *.
-    assert (Hch1' : 1 <= lenZ ch) by (pose proof (chain_go_nonempty _ _ _ _ _ Hch); destruct ch; [congruence|unfold lenZ; cbn [length]; lia]).
+    assert (Hch1' : 1 <= lenZ ch) by (pose proof (chain_go_nonempty _ _ _ _ _ _ Hch); destruct ch; [congruence|unfold lenZ; cbn [length]; lia]).
     assert (Hbig : lenZ ch * bpc s < lenZ data).
     { destruct (Z_lt_dec (lenZ ch * bpc s) (lenZ data)) as [?|Hnl]; [assumption|]. pose proof (ceil_div_le (lenZ data) (bpc s) (lenZ ch) HB ltac:(lia)). lia. }
     assert (Hnn : 1 <= lenZ new).
@@ -434,7 +435,8 @@ Proof.
     assert (Hne : new <> []) by (intro; subst new; unfold lenZ in Hnn; cbn in Hnn; lia).
     assert (Hch1 : chain s1 c = (ch ++ new, true)).
     { unfold chain, s1. cbn [s_fat upd_fat]. replace (ft (upd_fat s2 _ _)) with (ft s) by (rewrite <- Et2; reflexivity).
-      rewrite Hfat. apply extend_chain; try assumption.
+      replace (dmax (upd_fat s2 _ _)) with (dmax s) by (symmetry; apply dmax_geo; [apply Hg2|apply Hg2]).
+      rewrite Hfat. apply extend_chain; try assumption; [apply dmax_dok; exact Hv|].
       eapply Forall_impl; [|exact Hf]. cbv beta. intros a Ha. rewrite Hfree in Ha. lia. }
     rewrite Hch1 in Hw.
     assert (Hg1 : same_geo s s1) by (destruct Hg2 as (A & B & C & D); repeat split; assumption).
